@@ -78,6 +78,8 @@ type scripted struct {
 	failS string
 	log   []plan.ReadEv
 	wantG bool
+	// keepData: the delivered bytes are recorded with every read (persistent sources)
+	keepData bool
 }
 
 func newScripted(s *plan.Src, lock bool) *scripted {
@@ -143,11 +145,13 @@ func (s *scripted) Read(p []byte) (int, error) {
 	}
 	want := len(p)
 	var stepErr string
+	stepOnce := false
 	if s.si < len(s.steps) {
 		st := &s.steps[s.si]
 		if st.N <= len(p) {
 			want = st.N
 			stepErr = st.E
+			stepOnce = st.Once
 			s.si++
 		} else {
 			// the step asks for more than this read can take: deliver a full
@@ -168,8 +172,14 @@ func (s *scripted) Read(p []byte) (int, error) {
 	var err error
 	if stepErr != "" {
 		err = kindErr(stepErr)
-		s.fail, s.failS = err, stepErr
+		if !stepOnce {
+			s.fail, s.failS = err, stepErr
+		}
 		ev.E = stepErr
+	}
+	ev.D = hex.EncodeToString(p[:n])
+	if !s.keepData {
+		ev.D = ""
 	}
 	s.log = append(s.log, ev)
 	return n, err
@@ -240,11 +250,17 @@ type state struct {
 	arena map[int][]byte
 	bufs  map[int][]byte
 	keep  []kept
+	// a scripted source installed by "srcset" that stays in place over the following calls
+	persist     *scripted
+	persistPrev io.Reader
 }
 
 // exec runs one op. It never lets a panic escape.
+var envTag = os.Getenv("VERIF_ENVTAG")
+
 func (st *state) exec(op *plan.Op, shared *scripted) (res plan.Res) {
 	res.I = op.I
+	res.Env = envTag
 	// decode arguments before the clock starts
 	var ent, full []byte
 	var s, p string
@@ -301,6 +317,10 @@ func (st *state) exec(op *plan.Op, shared *scripted) (res plan.Res) {
 		prev = bip39.VerifSwapRandSource(src)
 	}
 	isNew := op.Fn == "new" || op.Fn == "newchk"
+	persistMark := -1
+	if isNew && src == nil && st.persist != nil {
+		persistMark = len(st.persist.log)
+	}
 	if isNew && src == nil && !op.Shared && earlyrand.Wrapper != nil && !concMode {
 		earlyrand.Wrapper.Drain()
 	}
@@ -432,6 +452,20 @@ func (st *state) exec(op *plan.Op, shared *scripted) (res plan.Res) {
 				h.Write([]byte{'\n'})
 			}
 			res.Dig, res.Out, res.OutOK = hex.EncodeToString(h.Sum(nil)), outHex([]byte(last)), true
+		case "srcset":
+			if st.persist != nil {
+				bip39.VerifSwapRandSource(st.persistPrev)
+			}
+			st.persist = newScripted(op.Src, false)
+			st.persist.keepData = true
+			st.persistPrev = bip39.VerifSwapRandSource(st.persist)
+			res.OutOK = true
+		case "srcunset":
+			if st.persist != nil {
+				bip39.VerifSwapRandSource(st.persistPrev)
+				st.persist, st.persistPrev = nil, nil
+			}
+			res.OutOK = true
 		case "ident":
 			probe := &scripted{}
 			pv := bip39.VerifSwapRandSource(probe)
@@ -469,6 +503,10 @@ func (st *state) exec(op *plan.Op, shared *scripted) (res plan.Res) {
 	if src != nil {
 		bip39.VerifSwapRandSource(prev)
 		res.Reads = src.log
+	}
+	if persistMark >= 0 && st.persist != nil {
+		res.Reads = append([]plan.ReadEv(nil), st.persist.log[persistMark:]...)
+		res.Info = append(res.Info, "persistent-source")
 	}
 	if isNew && op.Shared && shared != nil {
 		// attribution happens in the parent through goroutine ids
